@@ -14,17 +14,24 @@
 (*   Reset(k, z)            a new, unrelated history begins                *)
 (*   RingChange(t, view)    the ring content becomes `view`; the change is *)
 (*                          stamped t (seconds, truncated)                 *)
-(*   Query(now, shards, lookbacks)  a client (any client: the first one, a *)
-(*                          second one built independently, before or      *)
-(*                          after unrelated queries) answered on the       *)
+(*   Query(now, late, shards, lookbacks)  a client (any client: the first  *)
+(*                          one, a second one built independently, before  *)
+(*                          or after unrelated queries) answered on the    *)
 (*                          current content: shards = {[id, size, S]},     *)
 (*                          lookbacks = {[id, size, L, S]}.  Enabled iff   *)
 (*                          the answers violate no clause (Failures = {}). *)
 (*                                                                         *)
-(* Time: a change stamped u happens at u + 1/2, a query with now = T at    *)
-(* T + 1/4; so a query sees exactly the changes stamped < T, and the       *)
-(* version ended by the change stamped u was current at some moment of     *)
-(* [T - L, T] iff u >= T - L.                                              *)
+(* "Depends on nothing but the ring content": the answers recorded for a   *)
+(* version are keyed by (id, size) only - not by the client, not by the    *)
+(* time of the query - so Deterministic demands the same plain shard from  *)
+(* every client at every moment the content is current, including the very *)
+(* second of the change that created it (late = 1) and any later second.   *)
+(*                                                                         *)
+(* Time: a change stamped u happens at u + 1/2.  A query with now = T is   *)
+(* issued either at T + 1/4, before the change of that second (late = 0:   *)
+(* it sees the changes stamped < T), or right after the change stamped T   *)
+(* (late = 1).  The version ended by the change stamped u was current at   *)
+(* some moment of the window [now - L, now] iff u >= T - L + late.         *)
 (***************************************************************************)
 EXTENDS ShardProps, Sequences, TLC
 
@@ -33,7 +40,7 @@ VARIABLES kind,      \* "inst" | "part"
           cur,       \* current view
           stamp,     \* stamp of the change that created it
           ans,       \* answers given on the current version: set of [id, size, S]
-          lbs,       \* look-back answers given on the current version: set of [id, size, L, now, S]
+          lbs,       \* look-back answers given on the current version: set of [id, size, L, now, late, S]
           prev,      \* previous view and the answers given on it: [view, ans] (view.mem = {} initially)
           ended,     \* ended versions: sequence of [to, view, ans]
           clock      \* time of the latest query
@@ -61,7 +68,8 @@ RingChange(t, view) ==
     /\ cur' = view /\ stamp' = t /\ ans' = {} /\ lbs' = {}
     /\ UNCHANGED <<kind, za, clock>>
 
-QueryWellTimed(now) == now > stamp /\ now >= clock
+QueryWellTimed(now, late) == /\ now >= clock
+                             /\ IF late = 1 THEN now = stamp ELSE late = 0 /\ now > stamp
 
 Same(a, b) == a.id = b.id /\ a.size = b.size
 
@@ -69,10 +77,10 @@ Same(a, b) == a.id = b.id /\ a.size = b.size
 Comparable(view) == kind = "inst" => ComparableZones(view, cur, za)
 
 (* shards of (id, size) that were current at some moment of [now - L, now] *)
-Past(now, L, q, shards) ==
+Past(now, late, L, q, shards) ==
     {a.S : a \in {b \in ans \cup shards : Same(b, q)}}
     \cup UNION {{a.S : a \in {b \in ended[v].ans : Same(b, q)}} :
-                   v \in {w \in 1..Len(ended) : ended[w].to >= now - L /\ Comparable(ended[w].view)}}
+                   v \in {w \in 1..Len(ended) : ended[w].to >= now - L + late /\ Comparable(ended[w].view)}}
 
 Apart(V, W) == IF kind = "inst" THEN ConsistencyApplies(V, W, za) ELSE POneApart(V, W)
 
@@ -81,7 +89,7 @@ MonoBad(a, b) == /\ a.id = b.id
 
 F(clause, q, other) == [clause |-> clause, q |-> q, other |-> other]
 
-Failures(now, shards, lookbacks) ==
+Failures(now, late, shards, lookbacks) ==
     LET all == ans \cup shards IN
        {F("SizeFormula", a, {}) : a \in {b \in shards :
             ~ IF kind = "inst" THEN SizeOK(b.S, cur, za, b.size) ELSE PSizeOK(b.S, cur, b.size)}}
@@ -93,21 +101,21 @@ Failures(now, shards, lookbacks) ==
           THEN {F("Consistency", a, {b \in prev.ans : Same(a, b) /\ ~ConsistencyOK(a.S, b.S)}) :
                   a \in {c \in shards : \E b \in prev.ans : Same(c, b) /\ ~ConsistencyOK(c.S, b.S)}}
           ELSE {})
-    \cup {F("LookbackSuperset", q, Past(now, q.L, q, shards)) :
-            q \in {r \in lookbacks : ~LookbackOK(r.S, Past(now, r.L, r, shards), cur.mem)}}
+    \cup {F("LookbackSuperset", q, Past(now, late, q.L, q, shards)) :
+            q \in {r \in lookbacks : ~LookbackOK(r.S, Past(now, late, r.L, r, shards), cur.mem)}}
     \cup {F("LookbackMembers", q, {}) : q \in {r \in lookbacks : ~(r.S \subseteq cur.mem)}}
     \cup {F("LookbackDeterministic", q, {}) :
-            q \in {r \in lookbacks : \E o \in lookbacks \cup {x \in lbs : x.now = now} :
+            q \in {r \in lookbacks : \E o \in lookbacks \cup {x \in lbs : x.now = now /\ x.late = late} :
                                         Same(r, o) /\ r.L = o.L /\ r.S # o.S}}
 
-Record(now, shards, lookbacks) ==
+Record(now, late, shards, lookbacks) ==
     /\ ans' = ans \cup shards
-    /\ lbs' = lbs \cup {[id |-> q.id, size |-> q.size, L |-> q.L, now |-> now, S |-> q.S] : q \in lookbacks}
+    /\ lbs' = lbs \cup {[id |-> q.id, size |-> q.size, L |-> q.L, now |-> now, late |-> late, S |-> q.S] : q \in lookbacks}
     /\ clock' = now
     /\ UNCHANGED <<kind, za, cur, stamp, prev, ended>>
 
-Query(now, shards, lookbacks) ==
-    /\ QueryWellTimed(now)
-    /\ Failures(now, shards, lookbacks) = {}
-    /\ Record(now, shards, lookbacks)
+Query(now, late, shards, lookbacks) ==
+    /\ QueryWellTimed(now, late)
+    /\ Failures(now, late, shards, lookbacks) = {}
+    /\ Record(now, late, shards, lookbacks)
 =============================================================================
